@@ -33,8 +33,14 @@ def gen(rng):
         lib += '  <import xmlns:xlink="http://www.w3.org/1999/xlink" xlink:href="units.cellml"><units units_ref="millivolt" name="%s"/></import>\n' % mv
     else:
         lib += '  <units name="%s"><unit units="volt" prefix="milli"/></units>\n' % mv
+    cu_compound = cn_units == 'cu' and rng.random() < 0.5
     if cn_units == 'cu':
-        lib += '  <units name="cu"><unit units="volt"/></units>\n'
+        if cu_compound:
+            # volt per second spelt with two units of the library, both of which the importing model may define differently (not equivalent
+            # to either of them, or flattening would merge them)
+            lib += '  <units name="cu"><unit units="cA"/><unit units="cB"/></units>\n  <units name="cA"><unit units="volt"/></units>\n  <units name="cB"><unit units="second" exponent="-1"/></units>\n'
+        else:
+            lib += '  <units name="cu"><unit units="volt"/></units>\n'
     if alias:
         lib += '  <units name="%s"><unit units="%s"/></units>\n' % (alias, mv)
     mid = depth == 2
@@ -45,7 +51,8 @@ def gen(rng):
                 '    <variable name="v" units="%s" interface="public_and_private"/>\n  </component>\n') % (mv, mv)
     lib += ('  <component name="leafA">\n    <variable name="a" units="%s" interface="public"/>\n    <variable name="src" units="%s" interface="public"/>\n'
             '    <math xmlns="%s"><apply><eq/><ci>src</ci><apply><times/><cn cellml:units="dimensionless">%s</cn><ci>a</ci></apply></apply></math>\n  </component>\n') % (mv, alias or mv, MML, K)
-    lib += ('  <component name="leafB">\n    <variable name="src" units="volt" interface="public"/>\n    <variable name="v" units="volt" interface="public"/>\n'
+    lib += ('  <component name="leafB">\n' + ('    <variable name="pa" units="cA" initial_value="1"/>\n    <variable name="pb" units="cB" initial_value="1"/>\n' if cu_compound else '') +
+            '    <variable name="src" units="volt" interface="public"/>\n    <variable name="v" units="volt" interface="public"/>\n'
             '    <math xmlns="%s"><apply><eq/><ci>v</ci><apply><plus/><ci>src</ci><cn cellml:units="%s">%s</cn></apply></apply></math>\n  </component>\n') % (MML, cn_units, Cc)
     par = 'mid' if mid else 'outer'
     pa, pv = ('a', 'v') if mid else ('a_in', 'y')
@@ -71,10 +78,19 @@ def gen(rng):
         for m in inst:
             o += '  <import xmlns:xlink="http://www.w3.org/1999/xlink" xlink:href="modlib.cellml"><component component_ref="outer" name="%s"/></import>\n' % m
     o += '  <units name="ms"><unit units="second" prefix="milli"/></units>\n'
+    # the importing model may have units of its own under the name of the units that only a cn element of the library uses
+    # (in a grandchild of the imported component when the module is two levels deep): the library's have to be renamed
+    cu_clash = cn_units == 'cu' and rng.random() < 0.6
+    if cu_clash:
+        o += '  <units name="cu"><unit units="second" prefix="kilo"/></units>\n'
+    if cu_compound and rng.random() < 0.7:
+        o += '  <units name="cA"><unit units="second" prefix="kilo"/></units>\n  <units name="cB"><unit units="metre"/></units>\n'
     o += '  <component name="main">\n'
     for i, m in enumerate(inst):
         o += '    <variable name="a%d" units="volt" interface="public" initial_value="%s"/>\n    <variable name="y%d" units="volt" interface="public"/>\n' % (i + 1, A[i], i + 1)
     o += '    <variable name="total" units="volt" interface="public"/>\n    <variable name="tau" units="ms" interface="public" initial_value="5"/>\n'
+    if cu_clash:
+        o += '    <variable name="kk" units="cu" interface="public" initial_value="3"/>\n'
     total = ''.join('<ci>y%d</ci>' % (i + 1) for i in range(n))
     o += '    <math xmlns="%s"><apply><eq/><ci>total</ci><apply><plus/>%s</apply></apply></math>\n  </component>\n' % (MML, total)
     clash_name = None
@@ -92,11 +108,15 @@ def gen(rng):
     files['origin.cellml'] = o
     y = [K * a + Cc for a in A]
     expect = {'main': {'total': sum(y), 'tau': 5.0}}
+    if cu_clash:
+        expect['main']['kk'] = 3.0
     for i in range(n):
         expect['main']['a%d' % (i + 1)] = A[i]; expect['main']['y%d' % (i + 1)] = y[i]
     multi = {'outer.a_in': sorted(A), 'outer.y': sorted(y),
              'leafA.src': sorted(K * 1000 * a for a in A), 'leafA.a': sorted(1000 * a for a in A),
              'leafB.src': sorted(K * a for a in A), 'leafB.v': sorted(y)}
+    if cu_compound:
+        multi['leafB.pa'] = [1.0] * n; multi['leafB.pb'] = [1.0] * n
     if mid:
         multi['mid.a'] = sorted(1000 * a for a in A); multi['mid.v'] = sorted(1000 * v for v in y)
     ncomp = 1 + n * (3 + (1 if mid else 0)) + (1 if clash_name else 0) + nown
@@ -104,4 +124,4 @@ def gen(rng):
         multi['own%d.zz' % j] = [20.0 + j]
     return dict(files=files, origin='origin.cellml', n=n, depth=depth, expect=expect, multi=multi, ncomp=ncomp,
                 nown=nown,
-                opts=dict(mv=mv, alias=alias, cn_units=cn_units, clash_comp=clash_comp, units_from=units_from, K=K, C=Cc, A=A, nown=nown))
+                opts=dict(mv=mv, alias=alias, cu_clash=cu_clash, cu_compound=cu_compound, cn_units=cn_units, clash_comp=clash_comp, units_from=units_from, K=K, C=Cc, A=A, nown=nown))
